@@ -549,6 +549,19 @@ class Ctx:
         while True:
             part = trace + ".part"
             rc, out, err = self.sh([binary, script, part, str(skip)], timeout=timeout, env=e, check=False)
+            if not os.path.exists(part):
+                # the driver died before it could open its trace: during static initialisation (library code called from global
+                # constructors, C18).  A sanitizer report or a fatal signal there is reported as a fault of its own (no event precedes it
+                # that a trace specification could judge); anything else is an infrastructure failure.
+                kind, where = _fault_kind(rc, err)
+                if rc == 3 or kind == "exit":
+                    raise InfraError("driver %s did not start: rc=%s %s" % (binary, rc, err[-2000:]))
+                self.faults += 1
+                self.bad.append({"line": 0, "clauses": ["fault"], "exp": {"kind": kind, "where": where},
+                                 "event": {"e": "Fault", "kind": kind, "where": where, "rc": rc, "line": "", "reset": "", "phase": "before the first script line (static initialisation)"},
+                                 "exec": [], "exec_pos": 0, "judge": "driver-startup", "driver": os.path.basename(binary)})
+                os.remove(script)
+                return trace, 1
             with open(part, "rb") as f:
                 data = f.read()
             os.remove(part)
@@ -613,6 +626,8 @@ class Ctx:
                         execs.append(cur)
                     cur.append(line)
         if not execs:
+            if any(r.get("judge") == "driver-startup" for r in self.bad):
+                return []          # every driver process died before its first script line; the startup faults are already recorded
             raise InfraError("no executions recorded for " + module)
         nev = sum(len(x) for x in execs)
         shards = shards or NCPU
